@@ -49,6 +49,7 @@ def path_axioms():
         z3.ForAll([k], z3.And(KEYSEG(k) != SEG_BLOBS, METASEG(k) != SEG_BLOBS)),
         z3.ForAll([a], IS_ANC(a, a)),
         z3.ForAll([a, s, b], IS_ANC(b, CHILD(a, s)) == z3.Or(b == CHILD(a, s), IS_ANC(b, a))),
+        z3.ForAll([a, s, b], z3.Implies(IS_ANC(CHILD(a, s), b), IS_ANC(a, b))),  # the parent of an ancestor is an ancestor
         z3.ForAll([a, s], z3.Implies(ISABS(a), ISABS(CHILD(a, s)))),
         z3.ForAll([a, s], DEPTH(CHILD(a, s)) == DEPTH(a) + 1),  # paths are finite: no path is its own descendant
         z3.ForAll([a, b], z3.Implies(IS_ANC(a, b), DEPTH(a) <= DEPTH(b))),
@@ -64,6 +65,17 @@ class FS:
         self.complete = z3.Const(name + ".complete", z3.ArraySort(P, z3.BoolSort()))
         self.target = z3.Const(name + ".target", z3.ArraySort(P, P))
         self.log = []  # effect log (python side), for crash obligations
+
+    _hv = [0]
+
+    def vc_havoc(self, eng):
+        """the state after an unknown number of loop iterations: fresh arrays, constrained only by the loop invariant"""
+        FS._hv[0] += 1
+        n = "fs_h%d" % FS._hv[0]
+        self.kind = z3.Const(n + ".kind", self.kind.sort())
+        self.content = z3.Const(n + ".content", self.content.sort())
+        self.complete = z3.Const(n + ".complete", self.complete.sort())
+        self.target = z3.Const(n + ".target", self.target.sort())
 
     def snapshot(self):
         o = FS.__new__(FS)
@@ -158,6 +170,8 @@ class FsModels:
         eng.oblige("makedirs_target_absent", z3.Not(fs.lexists(p)), kind="safety:FileExistsError", node=node)
         q = z3.Const(sv.fresh_name("q"), P)
         eng.oblige("makedirs_no_file_ancestor", z3.ForAll([q], z3.Implies(z3.And(IS_ANC(q, p), fs.lexists(q)), fs.isdir(q))), kind="safety:NotADirectoryError", node=node)
+        # A-FS (canonical paths): the directories on the way are directories, not links to directories
+        eng.assume(z3.ForAll([q], z3.Implies(z3.And(IS_ANC(q, p), fs.lexists(q)), fs.kind[q] != LINK)), heavy=True)
         newkind = z3.Const(sv.fresh_name("kind"), fs.kind.sort())
         eng.assume(z3.ForAll([q], newkind[q] == z3.If(z3.And(IS_ANC(q, p), fs.kind[q] == ABSENT), z3.IntVal(DIR), fs.kind[q])), heavy=True)
         fs.kind = newkind
